@@ -603,3 +603,30 @@ def check_C11(ctx):
     ctx.notes["function_counts_seen"] = sorted(set(c["nfuncs_out"] for c in ok))[-8:]
     for c in ok[:1] + ok[-1:]:
         ctx.sample({"id": c["id"], "code_section_start": c["code_section_start"], "ranges": c["ranges"][:3], "pairs_of_first_function": c["funcs"][0]["pairs"][:6] if c["funcs"] else []})
+
+
+def check_C10(ctx):
+    ctx.rule = ("modules with synthesized well-formed DWARF (gimli::write; versions 4 and 5; one subprogram per function; one row per instruction whose line number names (function, "
+                "instruction); one sequence per function and one sequence spanning all functions) x function counts / body sizes around LEB boundaries x {unchanged, GC, instructions inserted "
+                "through the builder}, run with DWARF generation on; rows and subprograms read back with gimli::read; TLC requires every output row to sit at the start of the output "
+                "instruction its instruction became (per the code transform that C11 judges), with equal file/column/is_stmt, every surviving instruction's row present exactly once, rows and "
+                "subprograms of removed code absent or tombstoned, every subprogram range equal to the function's output entry. Design: Body.tla (order-preserving elision) + Layout facts "
+                "checked by C11. A case is one (module, DWARF flavour, variant).")
+    q = ctx.quick()
+    cfg = write_cfg("MC_Body_gen", "SPECIFICATION BSpec\nCONSTANTS\n  MaxLen = %d\n  MaxDepth = 3\nINVARIANTS\n  EmittedMatches\n  EmittedBalanced\nCHECK_DEADLOCK FALSE\n" % (5 if q else 6))
+    model_check(ctx, "Body", cfg=cfg, workers=8, label="design-body")
+    n = 36 if q else 1500
+    trace = os.path.join(ctx.work, "dwarf.ndjson")
+    out = wv(["trace-dwarf", "inputs=gen:%d:small,gen:%d,gen:%d:many,fixtures" % (n, n // 3, 4 if q else 40), "seed=%d" % ctx.seed, "out=" + trace])
+    ctx.notes["harness"] = out.strip().splitlines()[-1]
+    r, cases = judge_trace(ctx, "Trace_Dwarf", trace, slim=lambda c: {"id": c["id"], "source": c["source"]})
+    ok = [c for c in cases if c["outcome"] == "ok"]
+    import collections
+    ctx.notes["cases_by_flavour"] = {"v%s%s/%s" % k: v for k, v in collections.Counter((c.get("version"), "span" if c.get("spanning") else "", c.get("variant")) for c in cases).items()}
+    ctx.notes["rows_checked"] = sum(len(c["in_rows"]) for c in ok)
+    ctx.notes["subprograms_checked"] = sum(len(c["in_subs"]) for c in ok)
+    ctx.notes["function_counts_seen"] = sorted(set(len(c["in_layout"]) for c in ok))[-6:]
+    for c in ok[:1] + ok[-1:]:
+        ctx.sample({"id": c["id"], "in_subs": c["in_subs"][:3], "out_subs": c["out_subs"][:3], "in_rows": [(r["addr"], r["fi"], r["k"]) for r in c["in_rows"][:6]], "out_rows": [(r["addr"], r["fi"], r["k"]) for r in c["out_rows"][:6]]})
+    ctx.assumptions += ["gimli 0.26 writes and reads the synthesized DWARF faithfully", "low_pc of a subprogram is taken to be the start of the function's code-section entry (its size field), which is the convention walrus's own address tables use",
+                        "v5 rows naming file 0 are not synthesized (gimli::write does not emit them)"]
